@@ -8,6 +8,7 @@ CONSTANTS
   AttrChoices,     \* set of attribute functions
   KeyChoices,      \* set of key sets for DeleteAttributes
   Versions, Gaps, MaxHeight, InitCoins, MaxSteps,
+  Variants,        \* BOOLEAN: add the unusual-but-valid input spellings to the alphabet
   OnlyOK           \* TRUE: only successful transactions are steps (simulation); rejected ones are replayed by the harness
 
 VARIABLES st, last, hist
@@ -15,6 +16,20 @@ vars == <<st, last, hist>>
 
 TDGs  == {<<t, d, g>> : t \in Tenants, d \in DSeqs, g \in GSeqs}
 Bids  == {<<t, d, g, o, p>> : t \in Tenants, d \in DSeqs, g \in GSeqs, o \in OSeqs, p \in Providers}
+
+\* unusual-but-valid spellings of inputs; all of them must be rejected (so they add no states, only alphabet entries):
+\* deposits / prices in a foreign denomination, a self-bid with the address written in upper case
+Dp0 == CHOOSE x \in DepositChoices : \A y \in DepositChoices : x >= y
+Bd0 == CHOOSE x \in BidDepositChoices : \A y \in BidDepositChoices : x >= y
+Pr0 == CHOOSE x \in PriceChoices : \A y \in PriceChoices : x <= y
+VariantActions ==
+       {[act |-> "CreateDeployment", t |-> t, d |-> d, groups |-> gs, deposit |-> Dp0, version |-> 1, denom |-> "f"] :
+            t \in Tenants, d \in DSeqs, gs \in GroupChoices}
+  \cup {[act |-> "DepositDeployment", t |-> t, d |-> d, amount |-> 1, denom |-> "f"] : t \in Tenants, d \in DSeqs}
+  \cup {[act |-> "CreateBid", t |-> x[1], d |-> x[2], g |-> x[3], o |-> x[4], p |-> x[5], price |-> Pr0, deposit |-> Bd0, denom |-> "f"] : x \in Bids}
+  \cup {[act |-> "CreateBid", t |-> x[1], d |-> x[2], g |-> x[3], o |-> x[4], p |-> x[5], price |-> Pr0, deposit |-> Bd0, pdenom |-> "f"] : x \in Bids}
+  \cup {[act |-> "CreateBid", t |-> x[1], d |-> x[2], g |-> x[3], o |-> x[4], p |-> x[5], price |-> Pr0, deposit |-> Bd0, upper |-> TRUE] :
+            x \in {y \in Bids : y[5] = y[1]}}
 
 ActionSet ==
        {[act |-> "CreateDeployment", t |-> t, d |-> d, groups |-> gs, deposit |-> dp, version |-> v] :
@@ -32,6 +47,7 @@ ActionSet ==
   \cup {[act |-> "DeleteAttributes", a |-> a, p |-> p, keys |-> ks] : a \in Auditors, p \in Providers, ks \in KeyChoices}
   \cup {[act |-> "NextBlock", gap |-> g] : g \in Gaps}
   \cup {[act |-> "SendToEscrow", t |-> t, amount |-> 1] : t \in Tenants}
+  \cup (IF Variants THEN VariantActions ELSE {})
 
 \* J2: the action alphabet the harness tries at every selected state
 AlphabetJson == ToJson(SetToSeq(ActionSet))
